@@ -188,7 +188,9 @@ func (b *binaryReader) uvarint() int {
 	x, n := binary.Uvarint(b.b)
 	if n <= 0 || x > uint64(len(b.b)-n) {
 		b.b = nil
-		b.err = errors.New("malformed RepoBranches")
+		if b.err == nil {
+			b.err = errors.New("malformed RepoBranches")
+		}
 		return 0
 	}
 	b.b = b.b[n:]
@@ -215,7 +217,9 @@ func (b *binaryReader) bitmap() *roaring.Bitmap {
 		return nil
 	}
 	r := roaring.New()
-	_, b.err = r.FromBuffer(b.b[:l])
+	if _, err := r.FromBuffer(b.b[:l]); err != nil && b.err == nil {
+		b.err = err
+	}
 	b.b = b.b[l:]
 	return r
 }
@@ -223,7 +227,9 @@ func (b *binaryReader) bitmap() *roaring.Bitmap {
 func (b *binaryReader) byt() byte {
 	if len(b.b) < 1 {
 		b.b = nil
-		b.err = errors.New("malformed RepoBranches")
+		if b.err == nil {
+			b.err = errors.New("malformed RepoBranches")
+		}
 		return 0
 	}
 	x := b.b[0]
